@@ -68,35 +68,23 @@ func genC10(t *rapid.T, maxLines int, idx int) *c10Scenario {
 		sc.HoldCloseAt, sc.HoldIdleMS = 2, 5000
 		return sc
 	}
+	// The two shapes below are fixed rather than drawn: with 400-byte lines (charge 5.36 s) the replayed
+	// penalty is far enough from the 10 s threshold at every decision for the 1.5 s scheduling slack
+	// not to blur it (drawn lengths made these shapes decide nothing in most batches).
 	if idx%6 == 2 {
-		// build a penalty, drop the connection, reconnect at once: registration and what follows are
-		// still charged against the same penalty
-		sc.Lines = nil
-		m := rapid.IntRange(3, 4).Draw(t, "burst")
-		for i := 0; i < m; i++ {
-			sc.Lines = append(sc.Lines, c10Line{Len: rapid.SampledFrom([]int{50, 120}).Draw(t, "len")})
-		}
-		sc.ReconnectAt = m
-		sc.Lines = append(sc.Lines, c10Line{Len: 1})
+		// build a penalty (the second line is held back, the third too), drop the connection, reconnect at
+		// once: registration and what follows are still charged against the same penalty
+		sc.Lines = []c10Line{{Len: 400}, {Len: 400}, {Len: 1}, {Len: 1}}
+		sc.ReconnectAt = 3
 		return sc
 	}
 	if idx%6 == 3 || idx%6 == 4 {
 		if idx%6 == 4 {
-			// build a penalty, idle, send one line with Flood set, switch it off again, send more:
-			// the idle time must still count as decay
-			sc.Lines = nil
-			m := rapid.IntRange(3, 4).Draw(t, "burst")
-			for i := 0; i < m; i++ {
-				sc.Lines = append(sc.Lines, c10Line{Len: rapid.SampledFrom([]int{50, 120}).Draw(t, "len")})
-			}
-			sc.ToggleAt = m
+			// build a penalty, idle or not, send one line with Flood set, switch it off again, send more:
 			// with an idle period the lines after the toggle must NOT be held (the idle time counts as
 			// decay); without one they MUST be held (the penalty is still there)
-			sc.Lines = append(sc.Lines, c10Line{Len: 10, GapMS: []int{0, 6000}[(idx/6)%2]})
-			sc.OffAt = m + 1
-			for i, k := 0, rapid.IntRange(1, 2).Draw(t, "after"); i < k; i++ {
-				sc.Lines = append(sc.Lines, c10Line{Len: rapid.SampledFrom([]int{1, 50}).Draw(t, "len")})
-			}
+			sc.Lines = []c10Line{{Len: 400}, {Len: 400}, {Len: 10, GapMS: []int{0, 6000}[(idx/6)%2]}, {Len: 1}, {Len: 50}}
+			sc.ToggleAt, sc.OffAt = 2, 3
 			return sc
 		}
 		sc.ToggleAt = rapid.IntRange(1, n-1).Draw(t, "toggle_at")
